@@ -867,14 +867,73 @@ def membership_guards(repo, col, prop):
 
         for st in fi.node.body:
             visit(st, [])
+        # every membership test of the function (also those kept in a local flag: `in_view = key in self.groups`)
+        tested = set()
+        for x in ast.walk(fi.node):
+            tt = test_of(x) if isinstance(x, ast.Compare) else None
+            if tt:
+                tested.add((tt[0], tt[1]))
         for tnode, D, ksrc, same, other in verdict.values():
             n_inst += 1
+            # a use of the OTHER container is fine when that container is tested for the key somewhere in the function as well
+            other = [c_ for c_ in other if (ksrc, c_) not in tested]
             col.check(not other, R, fi, f"{fi.qual}: `{ast.unparse(tnode)[:60]}` tests the container it updates",
                       f"{'.'.join(D)}[{ksrc}]",
                       f"the test looks `{ksrc}` up in `{'.'.join(D)}` but the guarded statements use `{'.'.join(other[0]) if other else ''}[{ksrc}]`: "
                       f"one is the view's restricted copy, the other the module's own container; a key that exists in only one of them is "
                       f"overwritten instead of extended (or the reverse)", node=tnode)
     col.rule(R, "membership tests look the key up in the container that is then read / written", 0)
+
+
+def _lost_updates(fn):
+    """assignments `x = f(..., x, ...)` (also `x op= ...`) to a local name that is not read afterwards"""
+    loads = {}
+    for x in ast.walk(fn):
+        if isinstance(x, ast.Name) and isinstance(x.ctx, ast.Load):
+            loads.setdefault(x.id, []).append((x.lineno, x.col_offset))
+    loops = [(l.lineno, l.end_lineno) for l in ast.walk(fn) if isinstance(l, (ast.For, ast.While))]
+    nonlocal_ = {n_ for x in ast.walk(fn) if isinstance(x, (ast.Global, ast.Nonlocal)) for n_ in x.names}
+    out = []
+    for st in walk_no_nested(fn):
+        if isinstance(st, ast.Assign) and len(st.targets) == 1 and isinstance(st.targets[0], ast.Name):
+            nm, val = st.targets[0].id, st.value
+        elif isinstance(st, ast.AugAssign) and isinstance(st.target, ast.Name):
+            nm, val = st.target.id, None
+        else:
+            continue
+        if nm in nonlocal_ or nm.startswith("_"):
+            continue
+        if val is not None and not any(isinstance(y, ast.Name) and y.id == nm for y in ast.walk(val)):
+            continue   # a first binding / plain overwrite, not an update of the variable
+        if any(a <= st.lineno <= b for a, b in loops):
+            continue   # carried to the next iteration
+        if isinstance(st, ast.AugAssign) and isinstance(st.value, ast.Constant):
+            continue   # counters
+        end = (st.end_lineno, st.end_col_offset)
+        if not any(pos > end for pos in loads.get(nm, ())):
+            out.append((st, nm))
+    return out
+
+
+def lost_updates(repo, col, prop):
+    """`x = np.clip(x, ...)` / `x = x.sort_values(...)` whose result nobody reads: the out-of-place operation was meant to change what
+    is returned / stored, but the returned object is another one (an alias taken earlier, the original).  The update is lost --
+    e.g. `min_radius` silently has no effect."""
+    R = f"R-{prop}-lostupdate"
+    probe = ast.parse("def f(r, m):\n    each = r.ravel()\n    r = np.clip(r, m, None)\n    return each").body[0]
+    if len(_lost_updates(probe)) != 1:
+        raise AnalysisError("lost-update detector does not recognise its reference example")
+    sc, ents, _ = scope(repo, prop)
+    n = 0
+    for fi in repo.all_functions():
+        if (fi.file, fi.qual) not in sc or fi.file in SKIP_FILES:
+            continue
+        n += 1
+        for st, nm in _lost_updates(fi.node):
+            col.bad(R, fi, f"{fi.qual}: the updated `{nm}` is used", f"`{ast.unparse(st)[:80]}` computes a new `{nm}` from the old one, but `{nm}` "
+                    f"is not read afterwards: what the function returns / stores was taken from the OLD value, the update has no effect", node=st)
+    col.ok(R, "jaxley", f"{n} functions: every update of a local variable in terms of itself is read afterwards", "")
+    col.rule(R, "no lost updates of local variables", 1)
 
 
 def T_find_key(t, key):
@@ -929,5 +988,6 @@ def run_all(prop, repo, col, tier):
     role_tokens(repo, col, prop)
     empty_guards(repo, col, prop)
     membership_guards(repo, col, prop)
+    lost_updates(repo, col, prop)
     if pending is not None:
         raise pending
